@@ -440,18 +440,21 @@ fn flag(x: &mut Exec) -> Res {
             a.note("sampled", seen, 0);
         });
     }
-    {
+    // one to three firers, all around the same moment (fire is a latch: firing twice is allowed and changes nothing)
+    let firers = x.rng.range(1, 3) as usize;
+    for fi in 0..firers {
         let (f, fr) = (f.clone(), fired_ret.clone());
         let co = x.rng.chance(1, 2);
-        x.spawn("firer", co, move |a| {
-            nap(fire_after);
+        let jitter = x.rng.below(120);
+        x.spawn(&format!("firer{}", fi), co, move |a| {
+            nap(fire_after + jitter);
             a.call("fire", 0);
             f.fire();
             a.ret("fire", 0, 0);
             fr.store(true, SeqCst);
         });
     }
-    x.desc = format!("flag waiters={} fire_after={}us", n, fire_after);
+    x.desc = format!("flag waiters={} firers={} fire_after={}us", n, firers, fire_after);
     x.wait_all()?;
     if let Some(e) = errs.lock().unwrap().first() {
         return viol(format!("SyncFlag: {}", e));
@@ -653,8 +656,10 @@ fn relock(x: &mut Exec) -> Res {
     let pair = Arc::new((Mutex::new(false), Condvar::new()));
     let n_wait = x.rng.range(1, 2) as usize;
     let mut targets = vec![];
+    let occ = Arc::new(AtomicIsize::new(0));
+    let errs = Arc::new(std::sync::Mutex::new(Vec::<String>::new()));
     for i in 0..n_wait {
-        let pair = pair.clone();
+        let (pair, occ, errs) = (pair.clone(), occ.clone(), errs.clone());
         let (_, h) = x.spawn_co(&format!("waiter{}", i), move |a| {
             let (m, c) = (&pair.0, &pair.1);
             a.call("lock", 0);
@@ -665,11 +670,18 @@ fn relock(x: &mut Exec) -> Res {
                 g = c.wait(g).unwrap();
                 a.ret("cv.wait", 0, 0);
             }
+            // we own the mutex here: nobody else may be inside for as long as we keep it
+            if occ.fetch_add(1, SeqCst) != 0 {
+                errs.lock().unwrap().push("the waiter came back from cv.wait owning the mutex while somebody else was inside".into());
+            }
+            std::thread::sleep(Duration::from_micros(150));
+            occ.fetch_sub(1, SeqCst);
             drop(g);
         });
         targets.push(h);
     }
     let pair2 = pair.clone();
+    let (occ2, errs2) = (occ.clone(), errs.clone());
     let hold_us = x.rng.below(400);
     let mut r = x.rng.fork();
     x.spawn("holder", false, move |a| {
@@ -689,6 +701,11 @@ fn relock(x: &mut Exec) -> Res {
             a.call("lock", 2 + round);
             let g = m.lock().unwrap();
             a.ret("lock", 2 + round, 0);
+            if occ2.fetch_add(1, SeqCst) != 0 {
+                errs2.lock().unwrap().push("the holder got the mutex while a waiter that had come back from cv.wait still owned it (lock released twice)".into());
+            }
+            nap(r.below(100));
+            occ2.fetch_sub(1, SeqCst);
             drop(g);
         }
     });
@@ -705,6 +722,9 @@ fn relock(x: &mut Exec) -> Res {
             Err(e) if is_cancel_panic(&e) => {}
             Err(_) => return viol("relock: a waiter ended with a non-Cancel panic"),
         }
+    }
+    if let Some(e) = errs.lock().unwrap().first() {
+        return viol(format!("relock: {}", e));
     }
     let res = match pair.0.try_lock() {
         Ok(_) => Ok(()),
